@@ -176,6 +176,11 @@ pub trait Payload: Send + Sized + 'static {
     const NAME: &'static str;
     /// every value carries a distinct tag
     const UNIQUE: bool;
+    /// has drop glue and is therefore tracked by the ledger (the `N*` classes are plain data:
+    /// they exercise the `needs_drop::<T>() == false` branches of the channel)
+    const DROPS: bool = true;
+    /// tag-level bookkeeping (which value went where, who destroyed it) is possible
+    const TRACKED: bool = Self::UNIQUE && Self::DROPS;
     /// `tag` must be >= FIRST_UNIQUE for unique classes; `pat` selects body bits.
     fn make(tag: u64, pat: u64) -> Self;
     /// ledger slot = identity
@@ -395,7 +400,62 @@ impl Payload for LS {
 }
 ledger_drop!(LS);
 
-pub const CLASSES: [&str; 9] = ["Z0", "ZA", "S1", "S4", "P8", "PB", "L16", "L40", "LS"];
+// ---- plain data without drop glue (not in the ledger) --------------------------------------------
+pub struct N4(pub u32);
+impl Payload for N4 {
+    const NAME: &'static str = "N4";
+    const UNIQUE: bool = true;
+    const DROPS: bool = false;
+    fn make(tag: u64, _: u64) -> Self {
+        assert!(tag < (1 << 24));
+        N4((tag as u32) | (((hash64(tag) & 0xff) as u32) << 24))
+    }
+    fn tag(&self) -> u64 {
+        (self.0 & 0xff_ffff) as u64
+    }
+    fn ok(&self) -> bool {
+        (self.0 >> 24) as u64 == hash64(self.tag()) & 0xff
+    }
+}
+pub struct N8(pub u64);
+impl Payload for N8 {
+    const NAME: &'static str = "N8";
+    const UNIQUE: bool = true;
+    const DROPS: bool = false;
+    fn make(tag: u64, _: u64) -> Self {
+        N8(tag | ((hash64(tag) & 0xff_ffff) << 40))
+    }
+    fn tag(&self) -> u64 {
+        self.0 & 0xff_ffff_ffff
+    }
+    fn ok(&self) -> bool {
+        (self.0 >> 40) == hash64(self.tag()) & 0xff_ffff
+    }
+}
+#[repr(C)]
+pub struct N40 {
+    pub flag: bool,
+    pub w: u32,
+    pub tag: u64,
+    pub body: [u64; 2],
+    pub sum: u64,
+}
+impl Payload for N40 {
+    const NAME: &'static str = "N40";
+    const UNIQUE: bool = true;
+    const DROPS: bool = false;
+    fn make(tag: u64, pat: u64) -> Self {
+        N40 { flag: pat & 1 == 1, w: (pat >> 16) as u32, tag, body: [pat, !pat], sum: hash64(tag ^ pat) }
+    }
+    fn tag(&self) -> u64 {
+        self.tag
+    }
+    fn ok(&self) -> bool {
+        self.sum == hash64(self.tag ^ self.body[0]) && self.body[0] == !self.body[1]
+    }
+}
+
+pub const CLASSES: [&str; 12] = ["Z0", "ZA", "S1", "S4", "P8", "PB", "L16", "L40", "LS", "N4", "N8", "N40"];
 
 /// Runs `$f::<T>($args)` for the class named `$name`.
 #[macro_export]
@@ -411,6 +471,9 @@ macro_rules! with_class {
             "L16" => $f::<$crate::payload::L16>($($a),*),
             "L40" => $f::<$crate::payload::L40>($($a),*),
             "LS" => $f::<$crate::payload::LS>($($a),*),
+            "N4" => $f::<$crate::payload::N4>($($a),*),
+            "N8" => $f::<$crate::payload::N8>($($a),*),
+            "N40" => $f::<$crate::payload::N40>($($a),*),
             other => panic!("unknown payload class {}", other),
         }
     };
